@@ -153,8 +153,16 @@ def check_rejection_rate(ctx, results, limit=0.02):
     if ex:
         ctx.cov.setdefault("typed_but_rejected_examples", []).extend(ex)
     if typed and n > limit * typed:
-        raise verif.ToolError("the real front end rejects %d of %d programs the spec types: the "
-                              "generator/typing of PolicyLang.tla drifted from the language" % (n, typed))
+        ctx.cov["rejection_rate_exceeded"] = "%d of %d" % (n, typed)
+
+
+def finish_rejection(ctx):
+    """A high rejection rate of spec-typed programs makes the coverage unreal: tool error, unless
+    the run already found violations (then those are the verdict)."""
+    if ctx.cov.get("rejection_rate_exceeded") and ctx.nviol == 0:
+        raise verif.ToolError("the real front end rejects %s programs the spec types: the "
+                              "generator/typing of PolicyLang.tla drifted from the language"
+                              % ctx.cov["rejection_rate_exceeded"])
 
 
 def selftest(ctx, vh, prop, pre, programs):
